@@ -51,6 +51,8 @@ func main() {
 		corr(args)
 	case "loop":
 		loopMode(args)
+	case "attrs":
+		attrsMode(args)
 	default:
 		fmt.Fprintln(os.Stderr, "unknown subcommand", cmd)
 		os.Exit(2)
